@@ -550,6 +550,8 @@ void AbstractDiscreteDistribution::restrictToConstraint(const ConstraintInterfac
   // (comparing the bounds only would ignore a constraint that merely excludes an end).
   IntervalConstraint inter(*intMinMax_);
   inter &= *pi;
+  if (inter.isEmpty())
+    throw Exception("AbstractDiscreteDistribution::restrictToConstraint: the constraint does not meet the domain of the distribution");
   if (inter != *intMinMax_)
   {
     *intMinMax_ = inter;
